@@ -167,7 +167,7 @@ class Replayer:
     """Streams one trace: writes the model requests and the expected answers, and evaluates the spec oracles on
     the implementation's data alone (self.spec = list of (sig, line_no, text))."""
 
-    def __init__(self, trace, reqpath, exppath, unit=32, hdr=32, start_gc=None, max_allocs=None, ratio=(3, 4)):
+    def __init__(self, trace, reqpath, exppath, unit=32, hdr=32, start_gc=None, max_allocs=None, ratio=(3, 4), image=None):
         """start_gc=None: the model starts at the heap's creation; start_gc=k: the model is loaded with the
         implementation's heap as left by its k-th sweep (counted from 0) and replays from there.  max_allocs:
         stop feeding the model after that many allocations (the spec oracles always see the whole trace)."""
@@ -195,6 +195,9 @@ class Replayer:
         self.ratio = ratio
         self.last_gc = None        # (largest free chunk after the sweep, unmarked bytes, total) of the last collection
         self.dumps = DumpChecker(self)     # H3 heap dumps (CHIBI_VERIF_DUMP), when the trace carries them: closedness
+        # round 3: a context loaded from an image: dict(free=requested free size, packed=bytes of the image, hsize=size of the
+        # segment as the first sweep sees it, objs=[(off, size)] of the packed objects as the first sweep sees them)
+        self.image = image
 
     def bad(self, sig, ln, text):
         if len(self.spec) < 50:
@@ -375,7 +378,10 @@ class Replayer:
                     oom = True
                 elif c == "N":
                     f = line.split()
-                    if not started:
+                    if not started and self.image is not None:
+                        started = True
+                        self.start_image(int(f[1]), ln, req, exp)
+                    elif not started:
                         started = True
                         self.add_heap(int(f[1]))
                         S["init_total"] = int(f[1])
@@ -402,6 +408,37 @@ class Replayer:
         S["final_total"] = sum(self.heaps)
         S["sizes"] = len(S["sizes"])
         return S
+
+    def start_image(self, msize, ln, req, exp):
+        """inv_after_image_load as a CHECKED premise on the real heap: the segment sexp_load_image built by hand
+        (gc_heap.c sexp_gc_packed_heap_make) = the packed objects, then ONE free chunk that ends exactly at the segment
+        end; aligned; inside the malloc'ed block; at least the free size asked for.  The model's packed_heap_make (its
+        arithmetic translated from the source) must give the same segment: request `image`."""
+        im = self.image
+        hdr, unit, packed, hsize = self.hdr, self.unit, im["packed"], im["hsize"]
+        p = hdr
+        for (o, s) in im["objs"]:
+            if o != p or s <= 0 or s % unit:
+                self.bad("image:packed-objects-do-not-tile", ln, "the objects read from the image should tile [%d,%d); the first sweep sees (%d,%d) at position %d" % (hdr, hdr + packed, o, s, p))
+                break
+            p = o + s
+        else:
+            if p != hdr + packed:
+                self.bad("image:packed-objects-do-not-tile", ln, "the objects read from the image end at %d, the image at %d" % (p, hdr + packed))
+        if hsize % unit or hsize < hdr + packed:
+            self.bad("image:segment-size-not-aligned-or-too-small", ln, "segment of %d bytes for %d packed bytes" % (hsize, packed))
+        if hsize > msize:
+            self.bad("image:segment-exceeds-the-malloced-block", ln, "heap->size %d, block handed to sexp_make_heap %d" % (hsize, msize))
+        if hsize - hdr - packed < im["free"]:
+            self.bad("image:free-space-smaller-than-requested", ln, "%d bytes free behind the image, %d asked for" % (hsize - hdr - packed, im["free"]))
+        self.heaps.append(hsize)
+        rest = hsize - hdr - packed
+        self.free.append(([hdr + packed], [hsize]) if rest > 0 else ([], []))
+        self.live.append(dict(im["objs"]))
+        self.stats["init_total"] = hsize
+        self.first_max = 0
+        req.write("image %d 0 %s\n" % (im["free"], ",".join(str(s) for (o, s) in im["objs"]) or "-"))
+        exp.write("%d %d %d F %s\n" % (ln, msize, hsize, ("%d:%d" % (hdr + packed, rest)) if rest > 0 else "-"))
 
     def gc_block(self, objs, fls, mf, sf, req, exp, ln):
         """spec oracles on the implementation's sweep input/output; returns the pending model request"""
@@ -499,6 +536,8 @@ def compare(exppath, anspath, partial=False):
 
 def kind_of(div):
     w = div["impl"]
+    if re.match(r"\d+ \d+ F ", w):
+        return "image-heap"
     if w.startswith("R "):
         g = div["model"]
         if " G " in w:
@@ -574,7 +613,7 @@ def run_workload(d, name, kind, cargs, sargs, outdir, timeout=900, sweeplog=True
             B.cc_embed(d, EMBED, exe)
         cmd = [exe] + cargs
     else:
-        cmd = [os.path.join(d, "chibi-scheme")] + cargs + [os.path.abspath(WORKLOADS)] + sargs
+        cmd = [os.path.join(d, "chibi-scheme")] + cargs + ([os.path.abspath(WORKLOADS)] + sargs if sargs is not None else [])
     t0 = time.time()
     try:
         r = subprocess.run(cmd, capture_output=True, text=True, timeout=timeout, env=env)
@@ -582,7 +621,7 @@ def run_workload(d, name, kind, cargs, sargs, outdir, timeout=900, sweeplog=True
     except subprocess.TimeoutExpired as e:
         rc, out, err = "TIMEOUT", "", ""
     replay = ("CHIBI_VERIF_TRACE=/var/tmp/c10.trace CHIBI_VERIF_SWEEPLOG=1 CHIBI_VERIF_AUDIT=1 LD_LIBRARY_PATH=%s CHIBI_MODULE_PATH=%s/lib "
-              "CHIBI_IGNORE_SYSTEM_PATH=1 %s" % (d, d, " ".join(cmd)))
+              "CHIBI_IGNORE_SYSTEM_PATH=1 %s" % (d, d, " ".join(("'%s'" % c if " " in c else c) for c in cmd)))
     return dict(name=name, trace=trace, rc=rc, out=out, err=err, replay=replay, secs=time.time() - t0)
 
 
@@ -611,7 +650,7 @@ def _big_stack():
         pass
 
 
-def check_trace(ctx, exe, w, consts, steady, window=("suffix", 40000), model_timeout=600, dump_stats=None):
+def check_trace(ctx, exe, w, consts, steady, window=("suffix", 40000), model_timeout=600, dump_stats=None, image=None):
     """replay one workload's trace; window = ("prefix", n): from the heap's creation, n allocations;
     ("suffix", n): from the latest sweep that leaves at least n allocations to replay; ("all",)"""
     base = w["trace"][:-6]
@@ -637,7 +676,7 @@ def check_trace(ctx, exe, w, consts, steady, window=("suffix", 40000), model_tim
                 start_gc.append(cands[0])
         max_allocs = m
     rp = Replayer(w["trace"], base + ".req", base + ".exp", unit=consts["unit"], hdr=consts["hdr"], start_gc=start_gc, max_allocs=max_allocs,
-                  ratio=consts.get("ratio", (3, 4)))
+                  ratio=consts.get("ratio", (3, 4)), image=image)
     S = rp.run()
     S["dumped_collections"] = rp.dumps.n_coll
     if dump_stats is not None:
@@ -1010,6 +1049,618 @@ def run_weak_scheme(ctx, d, exe, consts, outdir, total):
             pass
 
 
+# ----------------------------------------------------------------------------------------------- round 3: image-loaded heaps
+def image_prescan(trace, hdr, packed):
+    """heap->size and the packed objects as the FIRST sweep of an image-loaded process sees them"""
+    hsize, objs, inblock = None, [], False
+    with open(trace) as fh:
+        for line in fh:
+            c = line[0]
+            if c == "S":
+                f = line.split()
+                if int(f[1]) == 0 and hsize is None:
+                    hsize, inblock = int(f[2]), True
+                else:
+                    break
+            elif c == "o" and inblock:
+                f = line.split()
+                if int(f[1]) < hdr + packed:
+                    objs.append((int(f[1]), int(f[2])))
+                else:
+                    break
+            elif c in "TR" and inblock:
+                break
+    return hsize, objs
+
+
+def run_image(ctx, d, exe, consts, outdir, total):
+    """The second way a context comes into being: chibi-scheme -d dumps an image, chibi-scheme [-h free] -i loads it
+    (gc_heap.c sexp_load_image builds the segment by hand).  The loaded heap must satisfy Inv from the first moment
+    (a collection is forced at the first allocation so that the sweep log and the audit see the heap exactly as it was
+    built), the model's packed_heap_make must build the same segment, and the whole run is replayed through the
+    model FROM the image state (no start-up allocations: the trace is complete)."""
+    img = os.path.join(outdir, "c10.img")
+    r = subprocess.run([os.path.join(d, "chibi-scheme"), "-d", img], capture_output=True, text=True, timeout=120, env=B.chibi_env(d))
+    if r.returncode != 0 or not os.path.exists(img):
+        ctx.broken("image:dump-failed", "chibi-scheme -d did not write an image: rc=%s %s" % (r.returncode, (r.stdout + r.stderr)[-300:]))
+        return
+    import struct
+    raw = open(img, "rb").read(48)
+    fsize = os.path.getsize(img)
+    packed = struct.unpack_from("<Q", raw, 24)[0] if len(raw) == 48 else -1
+    if packed != fsize - 48 or packed % consts["unit"]:
+        ctx.broken("image:header-shape", "image header: size field %d, file %d bytes (expected a 48-byte header followed by the packed heap)" % (packed, fsize))
+        return
+    rng = ctx.rng
+    # requested free sizes: none (the branch free_size == 0: a FULL heap), below the minimum, unaligned, small, large
+    frees = [None, 1, 31, 33, rng.randrange(40, 5000), 100000 + rng.randrange(1, 31), 1 << 20, (1 << 21) + 32 * rng.randrange(1, 1000) + rng.randrange(0, 32)]
+    if ctx.thorough:
+        frees += [32, 64, 96, 8 << 20, 3 << 20] + [rng.randrange(1, 4 << 20) for _ in range(10)]
+    else:
+        keep = [None, 1] + rng.sample(frees[2:], 3)
+        frees = [f for f in frees if f in keep]
+    agg = dict(loads=0, first_sweeps=0, allocs=0, full_replays=0)
+    for j, free in enumerate(frees):
+        name = "image-h%s" % ("none" if free is None else free)
+        cargs = ([] if free is None else ["-h", str(free)]) + ["-i", img]
+        sargs = [["mixed", "2500"], ["churn", "20000"], ["records", "4000"], ["growing", "6000"]][j % 4] + [str(rng.randrange(1, 1000000))]
+        light = (not ctx.thorough and j != 1) or (ctx.thorough and j % 3 == 2)
+        if light:
+            # core-only workload given with -e (loading harness/c10_workloads.scm costs 500 000 allocations of imports):
+            # lists, vectors and strings of seed-dependent sizes, a sliding set of survivors
+            m1, m2, n = rng.randrange(3, 97), rng.randrange(3, 97), rng.randrange(3000, 8000)
+            expr = ("(let loop ((i 0) (keep '())) (if (< i %d) (loop (+ i 1) (let ((x (cond ((= 0 (modulo i 7)) (make-vector (modulo (* i %d) 200) i)) "
+                    "((= 1 (modulo i 7)) (make-string (modulo (* i %d) 300) #\\a)) ((= 2 (modulo i 7)) (number->string (* i i i))) (else (list i i i))))) "
+                    "(if (= 0 (modulo i 50)) (cons x (if (> (length keep) 40) '() keep)) keep)))))" % (n, m1, m2))
+            w = run_workload(d, name, "scm", cargs + ["-e", expr], None, outdir, timeout=300, extra_env={"CHIBI_VERIF_GC_EARLY": "1", "CHIBI_VERIF_GC": "at:1"})
+            sargs = ["-e", "<core-only loop n=%d>" % n]
+        else:
+            w = run_workload(d, name, "scm", cargs, sargs, outdir, timeout=300, extra_env={"CHIBI_VERIF_GC_EARLY": "1", "CHIBI_VERIF_GC": "at:1"})
+        w["replay"] = "CHIBI_VERIF_GC_EARLY=1 CHIBI_VERIF_GC=at:1 " + w["replay"] + "   # image: %s -d %s" % (os.path.join(d, "chibi-scheme"), img)
+        if not os.path.exists(w["trace"]):
+            ctx.broken("workload:" + name, "workload left no trace: rc=%s %s" % (w["rc"], w["err"][-300:]))
+            continue
+        agg["loads"] += 1
+        if w["rc"] != 0:
+            ctx.violation("workload-crash:" + name, input="%s, image of %d packed bytes" % (" ".join(cargs + sargs), packed), expected="exit 0",
+                          observed="rc=%s %s" % (w["rc"], w["err"][-400:]), replay=w["replay"])
+        hsize, objs = image_prescan(w["trace"], consts["hdr"], packed)
+        if hsize is None:
+            ctx.broken("image:no-sweep-seen", "the trace of %s has no sweep log (the forced first collection did not run): %s" % (name, w["err"][-200:]), replay=w["replay"])
+            continue
+        agg["first_sweeps"] += 1
+        try:
+            S = check_trace(ctx, exe, w, consts, False, window=("all",), model_timeout=(120 if not ctx.thorough else 600),
+                            image=dict(free=free or 0, packed=packed, hsize=hsize, objs=objs))
+        except Exception as e:
+            import traceback
+            ctx.broken("trace-analysis:" + name, "the trace of %s could not be analysed: %s %s" % (name, e, traceback.format_exc()[-600:]), replay=w["replay"])
+            continue
+        if S["model_truncated"]:
+            ctx.note("model replay of %s stopped by the time limit; the part replayed agrees" % name)
+        else:
+            agg["full_replays"] += 1
+        for k in total:
+            total[k] += S[k]
+        agg["allocs"] += S["allocs"]
+        ctx.count(S["allocs"] + S["gcs"] + S["grows"], key=None)
+        ctx.count(1, key=("image", "free", free))
+        for i in range(S["gcs"]):
+            ctx.count(0, key=(name, "gc", i))
+        ctx.cov["traces_validated_against_impl"] += 1
+        ctx.sample(dict(workload=name, packed=packed, requested_free=free, segment=hsize, allocations=S["allocs"], collections=S["gcs"], growths=S["grows"],
+                        diverged=S["diverged"], model_s=S["model_secs"]), maxn=30)
+        if not os.environ.get("VERIF_KEEP_TRACES"):
+            for ext in (".trace", ".req", ".exp", ".ans"):
+                try:
+                    os.unlink(w["trace"][:-6] + ext)
+                except OSError:
+                    pass
+        if ctx.violations and not ctx.thorough:
+            break
+    ctx.cov["image"] = agg
+
+
+# ----------------------------------------------------------------------------------------------- round 3: the embedder's roots
+EMBED_ROOTS = os.path.join(HERE, "..", "harness", "embed_c10_roots.c")
+
+
+def roots_exe(d):
+    from gen import c10_layout
+    hdr, nmem, members = c10_layout.regen(d)
+    hexe = os.path.join(d, "embed_c10_roots")
+    if (not os.path.exists(hexe) or os.path.getmtime(hexe) < os.path.getmtime(EMBED_ROOTS) or os.path.getmtime(hexe) < os.path.getmtime(hdr)):
+        B.cc_embed(d, EMBED_ROOTS, hexe, extra=["-I" + d])
+    return hexe, nmem
+
+
+class RootsGen:
+    """histories for harness/embed_c10_roots.c in bare mode.  The generator tracks which ids are certainly alive (it only
+    uses those as operands) by the SPEC: an id is usable while it is preserved, in an open frame, or the last created."""
+
+    def __init__(self, rng):
+        self.rng, self.ops, self.nid = rng, [], 0
+        self.pres = []            # spec view of the preservatives (ids, most recent first; duplicates possible)
+        self.frames = []
+        self.last = None
+
+    def new(self, kind, *args):
+        self.nid += 1
+        self.ops.append("%s %d %s" % (kind, self.nid, " ".join(str(a) for a in args)))
+        self.last = self.nid
+        return self.nid
+
+    def usable(self):
+        u = set(self.pres) | {x for f in self.frames for x in f if x}
+        if self.last:
+            u.add(self.last)
+        return sorted(u)
+
+    def P(self, i):
+        self.ops.append("P %d" % i); self.pres.insert(0, i)
+
+    def R(self, i):
+        self.ops.append("R %d" % i)
+        if i in self.pres:
+            self.pres.remove(i)
+
+    def G(self):
+        self.ops.append("G")
+
+    def leaf(self, lo=8, hi=400):
+        return self.new("K", self.rng.randrange(lo, hi))
+
+
+def roots_histories(rng, thorough):
+    """[(name, heap, ops, steady?)]"""
+    hs = []
+    # (1) stack order / queue order / middle-out, several batch sizes; every release followed by a collection at the end of the batch
+    g = RootsGen(rng)
+    for rnd in range(12 if not thorough else 60):
+        k = rng.choice([1, 2, 3, 5, 8, 13])
+        ids = []
+        for _ in range(k):
+            i = g.leaf(); g.P(i); ids.append(i)
+        g.ops.append("T"); g.last = None
+        g.G()
+        order = rnd % 4
+        rel = ids[::-1] if order == 0 else (list(ids) if order == 1 else (rng.sample(ids, len(ids)) if order == 2 else ids[::-1]))
+        for n, i in enumerate(rel):
+            g.R(i)
+            if order == 3 or n == len(rel) - 1 or rng.randrange(3) == 0:
+                g.G()                      # order 3: stack order with a collection after EVERY release
+        g.ops.append("W %d" % rng.randrange(10, 3000))
+    hs.append(("roots-orders", 262144, g.ops, False))
+    # (2) random: pairs / vectors over preserved objects, double preservation, release of never-preserved and of dead objects,
+    #     nested frames, mutation of slots
+    g = RootsGen(rng)
+    depth = 0
+    for step in range(700 if not thorough else 6000):
+        r = rng.randrange(100)
+        u = g.usable()
+        if r < 22:
+            i = g.leaf()
+            if rng.randrange(4):
+                g.P(i)
+        elif r < 34 and len(u) >= 1:
+            a, b = rng.choice(u), rng.choice(u + [0])
+            i = g.new("C", a, b)
+            if rng.randrange(3):
+                g.P(i)
+        elif r < 38 and u:
+            i = g.new("V", rng.randrange(1, 6))
+            g.P(i)
+            for k in range(rng.randrange(0, 4)):
+                g.ops.append("S %d %d %d" % (i, k, rng.choice(u)))
+        elif r < 46 and g.pres:
+            g.P(rng.choice(g.pres))                         # the same object preserved twice
+        elif r < 70 and g.pres:
+            # release: the head (stack order) twice as often as an arbitrary element
+            i = g.pres[0] if rng.randrange(3) else rng.choice(g.pres)
+            g.R(i)
+        elif r < 73:
+            # release of an object that is not preserved (alive through a frame / the temp root), or of #f (an id not yet created)
+            cand = [x for x in u if x not in g.pres] + [g.nid + 1]
+            g.R(rng.choice(cand))
+        elif r < 79 and depth < 3 and u:
+            a, b = rng.choice(u), rng.choice(u + [0])
+            g.ops.append("[ %d %d" % (a, b)); g.frames.append([a, b]); depth += 1
+        elif r < 85 and depth > 0:
+            g.ops.append("]"); g.frames.pop(); depth -= 1
+        elif r < 88:
+            g.ops.append("T"); g.last = None
+        elif r < 91:
+            g.ops.append("W %d" % rng.randrange(10, 4000))
+        else:
+            g.G()
+    while depth > 0:
+        g.ops.append("]"); g.frames.pop(); depth -= 1
+    g.G()
+    for i in list(g.pres):
+        g.R(i)
+    g.ops.append("T"); g.G()
+    hs.append(("roots-random", 262144, g.ops, False))
+    # (3) steady state: a constant number of preserved objects, renewed in batches; released in stack order (most recently
+    #     preserved first), queue order, or at random; live data stays below `live * size`
+    for mode in (("stack", "queue", "random") if thorough else ("stack", rng.choice(["queue", "random"]))):
+        g = RootsGen(rng)
+        size, live, batch = 16384, 40, 8
+        base = []
+        for _ in range(live):
+            i = g.leaf(size, size + 1); g.P(i); base.append(i)
+        for rnd in range(450 if not thorough else 3000):
+            ids = []
+            for _ in range(batch):
+                i = g.leaf(size, size + 1); g.P(i); ids.append(i)
+            if mode == "stack":
+                rel = ids[::-1]                                # the batch just preserved, newest first: always the head
+            elif mode == "queue":
+                rel, base = base[:batch], base[batch:] + ids   # the oldest ones
+            else:
+                pool = base + ids
+                rel = rng.sample(pool, batch)
+                base = [x for x in pool if x not in rel][:live]
+            for i in rel:
+                g.R(i)
+            if rnd % 50 == 49:
+                g.ops.append("T"); g.last = None; g.G()
+        g.ops.append("T"); g.G()
+        hs.append(("roots-steady-" + mode, 1 << 20, g.ops, True))
+    return hs
+
+
+def run_roots(ctx, d, exe, consts, outdir, total):
+    """sexp_preserve_object / sexp_release_object / sexp_gc_preserve frames on a bare context: (K-inner) the list
+    SEXP_G_PRESERVATIVES after every operation = the extracted model's list; (spec) its multiset = preservations minus
+    releases; (policy justification) after every explicit collection the tracked objects that are still objects of the
+    heap are EXACTLY those in the model's closure of the current roots (release_unroots / rooted_survives at the
+    implementation level); steady-state bound on the renewing histories; the allocator trace through the model."""
+    hexe, nmem = roots_exe(d)
+    agg = dict(histories=0, ops=0, pres_compared=0, collections_checked=0, objects_judged=0, freed_as_expected=0, struct_members=nmem)
+    for (name, heap, ops, steady) in roots_histories(ctx.rng, ctx.thorough):
+        hist = os.path.join(outdir, "c10-%s.hist" % name)
+        open(hist, "w").write("\n".join(ops) + "\n")
+        trace = os.path.join(outdir, "c10-%s.trace" % name)
+        env = B.chibi_env(d, {"CHIBI_VERIF_TRACE": trace, "CHIBI_VERIF_SWEEPLOG": "1", "CHIBI_VERIF_AUDIT": "1"})
+        cmd = [hexe, "bare", str(heap), "0", hist]
+        replay = "CHIBI_VERIF_TRACE=/var/tmp/c10.trace CHIBI_VERIF_SWEEPLOG=1 CHIBI_VERIF_AUDIT=1 LD_LIBRARY_PATH=%s %s" % (d, " ".join(cmd))
+        try:
+            r = subprocess.run(cmd, capture_output=True, text=True, timeout=300, env=env)
+            rc, out, err = r.returncode, r.stdout, r.stderr
+        except subprocess.TimeoutExpired as e:
+            rc, out, err = "TIMEOUT", (e.stdout or b"").decode("utf-8", "replace") if isinstance(e.stdout, bytes) else (e.stdout or ""), ""
+        agg["histories"] += 1
+        agg["ops"] += len(ops)
+        if rc != 0 or "DONE" not in out:
+            ctx.violation("workload-crash:" + name, input="root history %s (%d operations)" % (hist, len(ops)), expected="exit 0",
+                          observed="rc=%s %s" % (rc, err[-300:]), replay=replay)
+        judge_roots(ctx, exe, name, hist, ops, out, replay, agg)
+        w = dict(name=name, trace=trace, rc=rc, out=out[-200:], err=err, secs=0.0, replay=replay)
+        if os.path.exists(trace):
+            try:
+                S = check_trace(ctx, exe, w, consts, steady, window=("all",), model_timeout=(120 if not ctx.thorough else 600))
+                for k in total:
+                    total[k] += S[k]
+                ctx.count(S["allocs"] + S["gcs"] + S["grows"], key=None)
+                for i in range(S["gcs"]):
+                    ctx.count(0, key=(name, "gc", i))
+                ctx.cov["traces_validated_against_impl"] += 1
+                ctx.sample(dict(workload=name, operations=len(ops), allocations=S["allocs"], collections=S["gcs"], growths=S["grows"], peak_live=S["peak_live"],
+                                final_heap=S["final_total"], bound=S.get("bound"), diverged=S["diverged"]), maxn=30)
+            except Exception as e:
+                import traceback
+                ctx.broken("trace-analysis:" + name, "the trace of %s could not be analysed: %s %s" % (name, e, traceback.format_exc()[-600:]), replay=replay)
+        if not os.environ.get("VERIF_KEEP_TRACES"):
+            for ext in (".trace", ".req", ".exp", ".ans"):
+                try:
+                    os.unlink(trace[:-6] + ext)
+                except OSError:
+                    pass
+        if ctx.violations and not ctx.thorough:
+            break
+    ctx.cov["roots"] = agg
+    if agg["collections_checked"] == 0 or agg["freed_as_expected"] == 0:
+        ctx.broken("roots:nothing-judged", "the root histories produced no collection in which a released object was expected to be recycled: %s" % agg)
+
+
+def judge_roots(ctx, exe, name, hist, ops, out, replay, agg):
+    """walks the harness output next to the operations; see run_roots"""
+    lines = out.split("\n")
+    pos = 0
+
+    def nxt(prefix):
+        nonlocal pos
+        while pos < len(lines):
+            l = lines[pos]; pos += 1
+            if l.startswith(prefix):
+                return l
+            if l.startswith("MAUDIT FAIL"):
+                maudit.append(l)
+        return None
+    maudit = []
+    tmp = nxt("TMP ")
+    pres0 = nxt("PRES ")
+    if tmp is None or pres0 is None:
+        ctx.broken("roots:no-output:" + name, "the harness printed no TMP / PRES line")
+        return
+    tmpaddr = tmp.split()[1]
+    addr = {}            # id -> address text
+    owner = {}           # address -> id
+    edges = {}           # id -> list of ids
+    slots = {}           # id -> {slot index: id} (for S)
+    balance = {}         # address -> preservations minus releases (spec)
+    last = None
+    reqs = ["roots reset"]
+    checks = []          # per request: None | ("pres", op index, impl list) | ("closure", op index, {id: alive})
+    frames = []
+    init = [] if pres0.split()[1] == "-" else pres0.split()[1].split(",")
+    for a in reversed(init):
+        reqs.append("roots P " + a); checks.append(None)
+        balance[a] = balance.get(a, 0) + 1
+    reported = 0
+    persig = {}
+
+    def fail(sig, k, expected, observed):
+        nonlocal reported
+        persig[sig] = persig.get(sig, 0) + 1
+        if persig[sig] <= 2:
+            ctx.violation(sig, input="root history %s, operation %d (`%s`)" % (hist, k + 1, ops[k]), expected=expected, observed=observed,
+                          replay=replay + "   # operation %d of the history file; PRES / L lines of the output" % (k + 1))
+        reported += 1
+
+    def graph_text():
+        parts = []
+        if last is not None and last in addr:
+            parts.append("%s>%s" % (tmpaddr, addr[last]))
+        for i, ch in edges.items():
+            if i in addr and owner.get(addr[i]) == i:
+                t = [addr[c] for c in ch if c in addr and owner.get(addr[c]) == c]
+                if t:
+                    parts.append("%s>%s" % (addr[i], ",".join(t)))
+        return ";".join(parts) or "-"
+    for k, op in enumerate(ops):
+        f = op.split()
+        c = f[0]
+        if c in "KCV":
+            l = nxt("N ")
+            if l is None:
+                break
+            g = l.split()
+            i = int(g[1])
+            if g[2] == "i":
+                continue
+            addr[i] = g[2]; owner[g[2]] = i; last = i
+            edges[i] = [int(x) for x in f[2:4] if int(x)] if c == "C" else []
+            slots[i] = dict(enumerate(int(x) for x in f[2:4])) if c == "C" else {}
+        elif c == "S":
+            i, kk, a = int(f[1]), int(f[2]), int(f[3])
+            if i in edges:
+                slots.setdefault(i, {})[kk] = a
+                edges[i] = [x for x in slots[i].values() if x]
+        elif c in "PR":
+            l = nxt("PRES ")
+            if l is None:
+                break
+            impl = [] if l.split()[1] == "-" else l.split()[1].split(",")
+            i = int(f[1])
+            a = addr.get(i)
+            if a is None:
+                # an id that was never created: the harness passes #f, which is in no list; the model step is the identity
+                reqs.append("roots R 9:9" if c == "R" else "roots frames"); checks.append(("pres", k, impl) if c == "R" else None)
+            else:
+                reqs.append("roots %s %s" % (c, a)); checks.append(("pres", k, impl))
+                if c == "P":
+                    balance[a] = balance.get(a, 0) + 1
+                elif balance.get(a, 0) > 0:
+                    balance[a] -= 1
+            # spec: the multiset of the list = preservations minus releases
+            cnt = {}
+            for x in impl:
+                cnt[x] = cnt.get(x, 0) + 1
+            want = {x: n for x, n in balance.items() if n > 0}
+            if cnt != want:
+                d1 = sorted(x for x in set(cnt) | set(want) if cnt.get(x, 0) != want.get(x, 0))
+                fail("roots:preservatives-list-not-the-multiset-of-preservations", k,
+                     "SEXP_G_PRESERVATIVES holds every object as often as it was preserved minus released",
+                     "object %s is %d time(s) in the list, expected %d" % (d1[0], cnt.get(d1[0], 0), want.get(d1[0], 0)))
+                balance = dict(cnt)                 # resynchronise: one report per fault
+            agg["pres_compared"] += 1
+        elif c == "[":
+            vs = [addr[int(x)] for x in f[1:3] if int(x) and int(x) in addr]
+            frames.append(vs)
+            reqs.append("roots push " + (",".join(vs) or "-")); checks.append(None)
+        elif c == "]":
+            if frames:
+                frames.pop()
+                reqs.append("roots pop"); checks.append(None)
+        elif c == "T":
+            last = None
+        elif c == "G":
+            l = nxt("L ")
+            if l is None:
+                break
+            t = l.split()[1]
+            alive = {} if t == "-" else {int(x.split(":")[0]): x.split(":")[1] == "1" for x in t.split(",")}
+            reqs.append("roots fixed " + tmpaddr); checks.append(None)
+            reqs.append("roots closure " + graph_text()); checks.append(("closure", k, alive))
+            for i, al in alive.items():
+                if not al:
+                    if owner.get(addr.get(i)) == i:
+                        del owner[addr[i]]
+                    edges.pop(i, None)
+    nxt("DONE")
+    for l in maudit[:2]:
+        ctx.violation("closedness:struct-member-designates-freed-storage" if "struct-member" in l else "closedness:slot-designates-freed-storage",
+                      input="root history %s" % hist, expected="every reference held by a live object designates the start of a live object",
+                      observed=l, replay=replay)
+    try:
+        outs = ctx.run_model(exe, reqs)
+    except Exception as e:
+        ctx.broken("roots-model:" + name, "the model driver failed on the root operations: %s" % e)
+        return
+    answers = outs[1:]
+    for (chk, ans) in zip(checks, answers):
+        if chk is None:
+            continue
+        if chk[0] == "pres":
+            impl = chk[2]
+            model = [] if ans == "-" else ans.split(",")
+            if impl != model and reported == 0:
+                ctx.broken("roots-refinement:preservatives-order:" + name,
+                           "operation %d (`%s`): SEXP_G_PRESERVATIVES = %s, the model's list = %s (same multiset: a behaviour change that keeps the property)"
+                           % (chk[1] + 1, ops[chk[1]], impl[:6], model[:6]), replay=replay)
+                reported += 1
+        else:
+            k, alive = chk[1], chk[2]
+            reach = set() if ans == "-" else set(ans.split(","))
+            agg["collections_checked"] += 1
+            for i, al in sorted(alive.items()):
+                a = addr.get(i)
+                want = a in reach
+                agg["objects_judged"] += 1
+                if al and not want:
+                    fail("roots:released-object-not-recycled", k,
+                         "after the collection the storage of object %d (%s) is a free chunk: it is not reachable from the current roots (preservatives %s...)" % (i, a, "model closure"),
+                         "object %d at %s is still an object of the heap after the collection although it was released / never rooted and nothing reachable refers to it" % (i, a))
+                elif want and not al:
+                    fail("roots:rooted-object-freed", k, "object %d (%s) is reachable from the current roots and survives the collection" % (i, a),
+                         "its storage is a free chunk after the collection")
+                elif not al:
+                    agg["freed_as_expected"] += 1
+
+
+def members_history(rng, thorough):
+    """operations for embed_c10_roots in eval mode: objects of many kinds made by Scheme code, kept alive ONLY from the C side
+    (preserve_object, frames, environment bindings) across collections and garbage, then released"""
+    exprs = [
+        # uncaught errors returned to the C program: exceptions whose stack trace is referenced by nothing else
+        "(begin (define (c10-f x) (if (< x %d) (+ 1 (c10-f (+ x 1))) (car x))) (c10-f 0))" % rng.randrange(3, 12),
+        "(let loop ((i 0) (acc '())) (if (< i %d) (cons i (loop (+ i 1) acc)) (vector-ref (vector 1 2) i)))" % rng.randrange(3, 9),
+        "(begin (define (c10-g l) (map (lambda (x) (/ 1 x)) l)) (c10-g (list 1 2 0 3)))",
+        "(raise (list 'c10 \"payload\" (vector 1 2 3)))",
+        "(error \"c10 message\" (list 1 2) (string-append \"ir\" \"ritant\"))",
+        "(with-exception-handler (lambda (e) (car e)) (lambda () (raise-continuable (list 1 2))))",
+        "(string->symbol 5)",
+        # procedures with source information, closures
+        "(lambda (x) (+ x 1))", "(let ((k (make-vector 10 'a)) (s (string-copy \"closed over\"))) (lambda (i) (vector-ref k i) s))",
+        "(begin (define (c10-h a b . c) (if a b c)) c10-h)", "car", "(lambda args (apply + args))",
+        # ports
+        "(open-input-string \"hello world from a string port\")", "(let ((p (open-output-string))) (write '(a b c) p) p)", "(current-output-port)",
+        "(open-input-bytevector (bytevector 1 2 3 4))",
+        # environments, type objects, parameters, promises, macros
+        "(current-environment)", "(begin (define-record-type c10-point (make-c10-point x y) c10-point? (x c10-point-x) (y c10-point-y set-c10-point-y!)) c10-point)",
+        "(make-c10-point (list 1 2) (vector 3 4))", "(make-parameter (list 5 6))", "(delay (+ 1 2))", "(make-promise (list 'done))",
+        "(call-with-current-continuation (lambda (k) k))", "(let-syntax ((m (syntax-rules () ((_ a) (list a a))))) (lambda () (m 1)))",
+        # data
+        "(/ 1 3)", "(expt 7 80)", "(exact->inexact 1/3)", "(make-rectangular 1 2)", "(string->symbol \"a-long-symbol-name-made-at-run-time\")",
+        "(list->string (list #\\a #\\x3bb #\\b))", "(make-bytevector 100 7)", "(vector (list 1 2) (vector 3) \"s\")", "(list (cons 1 2) (cons 3 (cons 4 '())))",
+        "(let ((l (list 1 2 3))) (set-cdr! (cddr l) l) l)", "(string-copy \"a string\")", "(make-vector 300 (list 'shared))",
+    ]
+    ops = ["E 1 (import (scheme base) (scheme write) (scheme lazy) (srfi 9))", "T"]
+    nid = 1
+    kept = []
+    rounds = 3 if not thorough else 12
+    for rnd in range(rounds):
+        order = list(exprs)
+        rng.shuffle(order)
+        depth = 0
+        for e in order:
+            nid += 1
+            ops.append("E %d %s" % (nid, e))
+            how = rng.randrange(10)
+            if how < 6:
+                ops.append("P %d" % nid); kept.append(nid)
+            elif how < 8:
+                ops.append("B c10-kept-%d %d" % (nid, nid))
+            elif depth < 3:
+                ops.append("[ %d 0" % nid); depth += 1
+            ops.append("T")
+            if rng.randrange(6) == 0:
+                ops.append("W %d" % rng.randrange(1000, 60000))
+            if rng.randrange(5) == 0:
+                ops.append("G")
+        ops += ["G", "W %d" % rng.randrange(50000, 200000), "G"]
+        while depth > 0:
+            ops.append("]"); depth -= 1
+        # release part of what is kept, stack order first
+        rel = kept[::-1][:len(kept) // 2] if rnd % 2 == 0 else rng.sample(kept, len(kept) // 2)
+        for i in rel:
+            ops.append("R %d" % i); kept.remove(i)
+        ops += ["G", "W 30000", "G"]
+    return ops, kept
+
+
+def run_members_eval(ctx, d, outdir):
+    """closedness by the STRUCT-MEMBER view (gen/c10_layout.py: every member of C type sexp of struct sexp_struct, from
+    clang's AST, not from the type table) on a full evaluation context whose interesting objects — exceptions with stack
+    traces, procedures with source information, ports, environments, type objects, promises, continuations — are kept
+    alive only by the embedding C program across collections."""
+    hexe, nmem = roots_exe(d)
+    ops, kept = members_history(ctx.rng, ctx.thorough)
+    hist = os.path.join(outdir, "c10-members.hist")
+    open(hist, "w").write("\n".join(ops) + "\n")
+    cmd = [hexe, "eval", str(2 << 20), "0", hist]
+    replay = "CHIBI_VERIF_AUDIT=1 LD_LIBRARY_PATH=%s CHIBI_MODULE_PATH=%s/lib CHIBI_IGNORE_SYSTEM_PATH=1 %s   # MAUDIT FAIL lines" % (d, d, " ".join(cmd))
+    try:
+        r = subprocess.run(cmd, capture_output=True, text=True, timeout=600, env=B.chibi_env(d, {"CHIBI_VERIF_AUDIT": "1"}))
+        rc, out, err = r.returncode, r.stdout, r.stderr
+    except subprocess.TimeoutExpired as e:
+        rc, out, err = "TIMEOUT", (e.stdout or b"").decode("utf-8", "replace") if isinstance(e.stdout, bytes) else (e.stdout or ""), ""
+    lines = out.split("\n")
+    ma = [l for l in lines if l.startswith("MAUDIT FAIL")]
+    seen = set()
+    for l in ma:
+        m = re.search(r"(struct-member|type-table) ([\w.]+( slot)?)", l)
+        key = m.group(0) if m else l[:40]
+        if key in seen or len(seen) >= 3:
+            continue
+        seen.add(key)
+        ctx.violation(("closedness:struct-member-designates-freed-storage:" + m.group(2)) if (m and m.group(1) == "struct-member") else "closedness:slot-designates-freed-storage",
+                      input="embedding history %s (evaluation context; objects kept alive from C by sexp_preserve_object / gc_preserve frames / environment bindings)" % hist,
+                      expected="every member of C type sexp of every live object is an immediate or designates the start of a live object",
+                      observed=l, replay=replay)
+    hook = [l for l in err.split("\n") if "VERIF-AUDIT FAIL" in l]
+    if hook and not ma:
+        ctx.violation("audit:" + re.sub(r"[^a-z]+", "-", hook[0].split(":", 1)[-1].strip().lower()), input="embedding history %s" % hist,
+                      expected="VERIF audit passes after every sweep", observed=hook[0], replay=replay)
+    if (rc != 0 or "DONE" not in out) and not ma and not hook:
+        ctx.violation("workload-crash:members-eval", input="embedding history %s" % hist, expected="exit 0", observed="rc=%s %s" % (rc, err[-300:]), replay=replay)
+    # rooted => alive
+    dead_rooted = []
+    released = set()
+    keptnow = set()
+    li = 0
+    gl = [l for l in lines if l.startswith("L ")]
+    for op in ops:
+        f = op.split()
+        if f[0] == "P":
+            keptnow.add(int(f[1]))
+        elif f[0] == "R":
+            keptnow.discard(int(f[1]))
+        elif f[0] == "G" and li < len(gl):
+            t = gl[li].split()[1]; li += 1
+            if t != "-":
+                for x in t.split(","):
+                    i, al = x.split(":")
+                    if al == "0" and int(i) in keptnow:
+                        dead_rooted.append((int(i), li))
+    if dead_rooted:
+        ctx.violation("roots:rooted-object-freed", input="embedding history %s" % hist, expected="an object held by sexp_preserve_object survives every collection",
+                      observed="object %d is a free chunk after collection %d" % dead_rooted[0], replay=replay)
+    xs = [l.split() for l in lines if l.startswith("X ")]
+    traced = [x for x in xs if int(x[2].split("=")[1]) >= 2]
+    ngc = len(gl)
+    nobj = sum(1 for l in lines if l.startswith("N ") and not l.endswith(" i"))
+    agg = dict(operations=len(ops), objects=nobj, exceptions=len(xs), exceptions_with_stack_trace=len(traced), collections=ngc, struct_members=nmem, audit_failures=len(ma))
+    ctx.cov["members_eval"] = agg
+    ctx.sample(dict(workload="members-eval", **agg), maxn=30)
+    ctx.count(ngc * max(nobj, 1), key=None)
+    for i in range(ngc):
+        ctx.count(0, key=("members-eval", "gc", i))
+    if rc == 0 and (len(traced) < 2 or ngc < 4 or nobj < 30):
+        ctx.broken("members:workload-not-realised", "the embedding workload kept too little alive to mean anything: %s" % agg, replay=replay)
+
+
 def guarded_build(ctx, limit=300):
     """The repository's make runs the freshly built chibi-scheme (chibi-ffi on the .stub files): with a damaged
     allocator that can hang for ever.  So the shared scratch build runs in a child session under a time limit;
@@ -1143,14 +1794,35 @@ def run(ctx):
     selftest(ctx, exe, consts, outdir)
     total = dict(allocs=0, gcs=0, slow=0, grows=0, ooms=0)
     skip = os.environ.get("VERIF_C10_SKIP", "").split(",")       # developer switch (validation of single parts); never set by ./check
+    def prof(what):
+        if os.environ.get("VERIF_C10_PROFILE"):
+            sys.stderr.write("C10 profile: %s done at %.0fs\n" % (what, time.time() - ctx.t0))
+    prof("setup")
     try:
-        if "weak-embed" not in skip:
+        if "roots" not in skip:
+            run_roots(ctx, d, exe, consts, outdir, total)
+        prof("roots")
+        if "members" not in skip and not (ctx.violations and not ctx.thorough):
+            run_members_eval(ctx, d, outdir)
+        prof("members")
+    except B.BuildError as e:
+        ctx.broken("harness:embed_c10_roots", str(e)[-800:])
+    except RuntimeError as e:
+        ctx.broken("regen:c10_members", str(e)[-800:])
+    if complete and "image" not in skip and not (ctx.violations and not ctx.thorough):
+        run_image(ctx, d, exe, consts, outdir, total)
+    prof("image")
+    try:
+        if "weak-embed" not in skip and not (ctx.violations and not ctx.thorough):
             run_weak_embed(ctx, d, exe, consts, outdir, total)
     except B.BuildError as e:
         ctx.broken("harness:embed_c10_weak", str(e)[-800:])
-    if complete and not (ctx.violations and not ctx.thorough):
+    if complete and "weak-scheme" not in skip and not (ctx.violations and not ctx.thorough):
         run_weak_scheme(ctx, d, exe, consts, outdir, total)
+    prof("weak")
     for (name, kind, cargs, sargs, steady, window) in workloads(ctx.thorough, ctx.rng):
+        if "workloads" in skip:
+            break
         if kind == "scm" and not complete:
             continue
         if kind == "scm" and ctx.violations and not ctx.thorough:
@@ -1203,6 +1875,7 @@ def run(ctx):
     ctx.cov["generator_distribution"] = total
     ctx.assume("the mark phase is an input of this model (the marked set at sweep entry is taken from the implementation's sweep log); that it equals reachability is C02's / C16's "
                "property; the premise sweep_inv_closed needs from it (marks closed under strong slots and live-key ephemeron values) is CHECKED on every dumped heap, not proved")
-    ctx.assume("malloc never fails inside sexp_make_heap; SEXP_USE_FIXED_CHUNK_SIZE_HEAPS, the mmap variant and image loading (gc_heap.c) are outside the model")
+    ctx.assume("malloc never fails inside sexp_make_heap; SEXP_USE_FIXED_CHUNK_SIZE_HEAPS and the mmap variant are outside the model; of image loading (gc_heap.c) the model "
+               "covers the construction of the segment (packed_heap_make), not the pointer relocation of the loaded objects")
     ctx.assume("heap sizes stay below 2^53 (the C evaluates the growth ratio test in double arithmetic; the model uses the exact rational comparison)")
     ctx.trust("the sweep-log hook (fixes/hook-C10-sweeplog.patch): prints what sexp_sweep is about to read and what it left")
